@@ -27,7 +27,11 @@ CliOk(r) == IF r.cut < r.total THEN r.err ELSE ~r.err
 CliDebugOk(r) == CliOk(r) /\ r.calls = 1 /\ r.reportedOK
 WriteOk(r) == r.writes >= r.failAt => r.err
 
+\* a compressed message whose source FAILS (no clean end) at offset cut: the failure reaches the caller
+FlateOk(r) == r.err # "nil"
+
 Ok(r) == CASE r.k = "frame" -> FrameOk(r)
+           [] r.k = "flate" -> FlateOk(r)
            [] r.k = "srv" -> SrvOk(r)
            [] r.k = "cli" -> CliOk(r)
            [] r.k = "clidebug" -> CliDebugOk(r)
